@@ -682,10 +682,16 @@ func (mr *machineRun) hooks(x0 *Exec) Hooks {
 				}
 			}
 			for name := range cbCells {
+				found := false
 				for key, old := range st.Heap {
 					if key == name || strings.HasPrefix(key, name+".") || strings.HasPrefix(key, name+"#") {
 						st.Heap[key] = x.freshLike(st, key+"@callbacks", old, old.GoT)
+						found = true
 					}
+				}
+				if !found && st.Zero[name] {
+					// a zero-initialised cell that was not read yet (`var lastErr error` in a loop body): unknown as well
+					st.Named["unknown:"+name] = "true"
 				}
 			}
 			if len(mr.sp.Inv) > 0 {
@@ -1060,6 +1066,17 @@ func (mr *machineRun) runInit() {
 	x.run(st, sub, params, nil, func(s2 *State, ex Exit) { ends = append(ends, pathEnd{s2, ex}) })
 	subCases := mr.roleCases("subscribe")
 	for _, e := range ends {
+		if debugPaths {
+			var all []string
+			for _, ev := range e.st.Events {
+				all = append(all, ev.Name)
+			}
+			var on []string
+			for _, o := range e.st.Obls {
+				on = append(on, o.Name)
+			}
+			fmt.Fprintf(os.Stderr, "%s/subscribe exit=%d err=%q\n  events: %v\n  obligations: %v\n", mr.sp.Name, e.ex.Kind, e.st.Err, all, on)
+		}
 		if e.st.Err != "" {
 			mr.u.Errs = append(mr.u.Errs, fmt.Sprintf("%s/subscribe: %s", mr.sp.Name, e.st.Err))
 			continue
